@@ -109,10 +109,16 @@ def special(i):
         return "<![>"
     if i == 34:
         return 10 ** 12            # a timestamp beyond year 9999
-    return "\u00b2"                # a digit for str.isdigit() that int() rejects
+    if i == 35:
+        return "\u00b2"            # a digit for str.isdigit() that int() rejects
+    if i == 36:
+        return "1e1000000"         # beyond the decimal context's Emax
+    if i == 37:
+        return ["9e999999", "9e999999", {"k": "-9e999999"}]   # representable items whose sum overflows
+    return "-1E+1000000"
 
 
-NSPECIAL = 35
+NSPECIAL = 38
 
 
 def only_liquid(t, data):
@@ -152,7 +158,7 @@ def _mk_filter(n):
         pre: not isinstance(x, str) or len(x) <= 3
         pre: not isinstance(y, str) or len(y) <= 3
         pre: not isinstance(z, str) or len(z) <= 2
-        pre: 1 <= k <= 3 and 0 <= slot <= 3 and 0 <= sp <= 35 and sp != 28 and sp != 34 and 0 <= mode <= 2
+        pre: 1 <= k <= 3 and 0 <= slot <= 3 and 0 <= sp <= 38 and sp != 28 and sp != 34 and 0 <= mode <= 2
         post: _
         """
         if excluded("c02_filter_" + n, locals()):
@@ -281,7 +287,7 @@ def _mk_tag(kind):
         """
         pre: not isinstance(x, str) or len(x) <= 3
         pre: not isinstance(y, str) or len(y) <= 3
-        pre: 0 <= n <= 3 and 0 <= slot <= 2 and 0 <= sp <= 35 and sp != 28 and sp != 34 and 0 <= mode <= 2
+        pre: 0 <= n <= 3 and 0 <= slot <= 2 and 0 <= sp <= 38 and sp != 28 and sp != 34 and 0 <= mode <= 2
         post: _
         """
         if excluded("c02_tag_" + kind, locals()):
@@ -422,7 +428,7 @@ from liquid.limits import to_int  # noqa: E402
 def c02_kernel_args(x: V, k: int, slot: bool, sp: int) -> bool:
     """
     pre: not isinstance(x, str) or len(x) <= 4
-    pre: 0 <= k <= 3 and 0 <= sp <= 35 and sp != 28 and sp != 34
+    pre: 0 <= k <= 3 and 0 <= sp <= 38 and sp != 28 and sp != 34
     post: _
     """
     # the argument helpers used by every numeric filter: return, or raise a LiquidError (to_int: ValueError/TypeError
